@@ -65,11 +65,11 @@ let handle = function
   | ["ia"; rid; rq; aid; qr; rc; qd; an; ns; ar; aq] ->
       let lst s = if s = "-" then [] else List.map ni (String.split_on_char ',' s) in
       let a = { m_id = ni aid; m_qr = (qr = "1"); m_tc = false; m_rcode = ni rc; m_qd = ni qd; m_an = ni an;
-                m_ns = ni ns; m_ar = ni ar; m_qs = (if aq = "bad" then None else Some (lst aq)); m_ans = Some [] } in
+                m_ns = ni ns; m_ar = ni ar; m_qs = (if aq = "bad" then None else Some (lst aq)); m_ans = Some []; m_ka = None } in
       if c15_is_answer { r_id = ni rid; r_qs = lst rq } a then "true" else "false"
   | ["dg"; retries; timeout; script] ->
       let mk id tc rc qd an qs = PMsg { m_id = n_of_int id; m_qr = true; m_tc = tc; m_rcode = n_of_int rc; m_qd = n_of_int qd;
-                                       m_an = n_of_int an; m_ns = N0; m_ar = N0; m_qs = qs; m_ans = Some [] } in
+                                       m_an = n_of_int an; m_ns = N0; m_ar = N0; m_qs = qs; m_ans = Some []; m_ka = None } in
       let q l = Some (List.map n_of_int l) in
       let pkt id = function
         | 'G' | 'U' -> mk id false 0 1 0 (q [0]) | 'T' -> mk id true 0 1 0 (q [0]) | 'K' -> mk id true 0 1 1 (q [0]) | 'X' -> mk id false 0 1 1 (q [0])
@@ -97,7 +97,7 @@ let handle = function
   | "sm" :: idle :: evs ->
       (* s<k> single-response submit by caller k (question token k); x<k> AXFR and y<k> IXFR
          multi-response submit; f connection failure;
-         p<id>:<qr>:<rcode>:<qd>:<an>:<tc>:<qs>:<ans> a reply (qs: comma list of tokens, - empty, bad;
+         p<id>:<qr>:<rcode>:<qd>:<an>:<tc>:<qs>:<ans>:<ka> a reply (qs: comma list of tokens, - empty, bad;
          ans: - empty, bad = answer() fails, else comma list of s<serial> | o | e = unparsable record) *)
       let lst s = if s = "-" then [] else List.map ni (String.split_on_char ',' s) in
       let ans s = if s = "bad" then None else if s = "-" then Some [] else
@@ -112,9 +112,12 @@ let handle = function
         | 'y' -> ESubmit (num t, [num t], true, false, XIxfrInit)
         | 'f' -> EFail (n_of_int 1)
         | 'p' -> (match String.split_on_char ':' (String.sub t 1 (String.length t - 1)) with
-                  | [id; qr; rc; qd; an; tc; qs; a] ->
+                  | [id; qr; rc; qd; an; tc; qs; a; ka] ->
+                      (* ka: - no keepalive option, n option without timeout, else the timeout in units of 100 ms (the OPT record makes ARCOUNT 1) *)
                       EReply { m_id = ni id; m_qr = (qr = "1"); m_tc = (tc = "1"); m_rcode = ni rc; m_qd = ni qd; m_an = ni an;
-                               m_ns = N0; m_ar = N0; m_qs = (if qs = "bad" then None else Some (lst qs)); m_ans = ans a }
+                               m_ns = N0; m_ar = (if ka = "-" then N0 else n_of_int 1);
+                               m_qs = (if qs = "bad" then None else Some (lst qs)); m_ans = ans a;
+                               m_ka = (if ka = "-" then None else if ka = "n" then Some None else Some (Some (ni ka))) }
                   | _ -> failwith "bad reply event")
         | _ -> failwith "bad event" in
       let evl = List.map ev evs in
